@@ -317,6 +317,9 @@ pub struct ProbeScenario {
     /// index into arena::PROLOGUES: the synthetic target's first instruction
     #[serde(default)]
     pub prologue: usize,
+    /// the synthetic target is a jump thunk (`jmp body`) onto another function that is never named
+    #[serde(default)]
+    pub thunk: bool,
     /// seeded register files
     pub regs: Vec<Vec<u64>>,
     pub rets: Vec<Vec<u64>>,
@@ -353,6 +356,9 @@ pub fn generate(profile: &str, seed: u64, index: u64) -> ProbeScenario {
         classes.push(if near { "target-near-image".into() } else { "target-far-from-image".into() });
         classes.push(format!("off{off:x}"));
         classes.push(format!("prologue{prologue}"));
+        if index % 5 == 1 {
+            classes.push("thunk-target".into());
+        }
     }
     if mode == "gate" {
         classes.push(format!("sig{sig}-{value}"));
@@ -385,6 +391,7 @@ pub fn generate(profile: &str, seed: u64, index: u64) -> ProbeScenario {
         arena,
         off,
         prologue,
+        thunk: mode != "gate" && mode != "shapes" && index % 5 == 1,
         regs,
         rets,
         classes,
@@ -476,7 +483,15 @@ pub fn execute(sc: &ProbeScenario, sh: &Shared) -> Value {
                 return json!({"skipped": "arena unavailable"});
             }
             let target = base + sc.off;
-            arena::write_fn_with_prologue(target, 0xAB5A, sc.prologue);
+            // body of a thunk target: a second function on the second page, never named in an installation
+            let body = base + 0x1400;
+            arena::write_const_fn(body, 0xB0D15A);
+            if sc.thunk {
+                arena::write_jmp_fn(target, body);
+            } else {
+                arena::write_fn_with_prologue(target, 0xAB5A, sc.prologue);
+            }
+            let target_orig: u32 = if sc.thunk { 0xB0D15A } else { 0xAB5A };
             arena::seal_rx(base, 2 * 4096);
             let mut inj = InjectorPP::new();
             let mark = interpose::ledger_len();
@@ -491,6 +506,7 @@ pub fn execute(sc: &ProbeScenario, sh: &Shared) -> Value {
                 }
             }));
             interpose::arm(false);
+            let r_ok = r.is_ok();
             if let Err(p) = r {
                 v("probe-install-panicked", if is_bool { &["C10"] } else { &["C13"] }, format!("installation on synthetic target at {target:#x} panicked: {}", panic_msg(&p)));
             } else {
@@ -566,9 +582,18 @@ pub fn execute(sc: &ProbeScenario, sh: &Shared) -> Value {
                     }
                 }
             }
+            // the function behind a thunk was never named: it keeps its own behaviour while the
+            // thunk is faked ("no other observable effect")
+            if r_ok {
+                sh.note(PH_OTHER, 0, 0, 7);
+                let b = arena::call_u32(body);
+                if b != 0xB0D15A {
+                    v("function-behind-thunk-changed-behaviour", if is_bool { &["C10", "C03"] } else { &["C13", "C03"] }, format!("the target at {target:#x} is a `jmp` thunk onto {body:#x}; faking the thunk made a direct call of the body return {b:#x} instead of 0xb0d15a"));
+                }
+            }
             drop(inj);
             sh.note(PH_CALL_AFTER, 0, 0, 0);
-            if arena::call_u32(target) != 0xAB5A {
+            if arena::call_u32(target) != target_orig {
                 v("call-after-scope-exit-not-original", &["C02"], format!("synthetic target at {target:#x} does not return its constant after drop"));
             }
         }
